@@ -8,7 +8,9 @@ pub mod c09;
 pub mod c10;
 pub mod c11;
 pub mod c15;
+pub mod c12;
 pub mod c13;
+pub mod c14;
 pub mod common;
 
 use crate::report::Report;
@@ -25,7 +27,9 @@ pub fn run(id: &str, tier: &str) -> i32 {
         "C10" => c10::run(&rep),
         "C11" => c11::run(&rep),
         "C15" => c15::run(&rep),
+        "C12" => c12::run(&rep),
         "C13" => c13::run(&rep),
+        "C14" => c14::run(&rep),
         _ => {
             eprintln!("unknown property {id}");
             2
